@@ -125,7 +125,8 @@ static void occ_del(uintptr_t sn) {
   for (; *b; b = &(*b)->next) if ((*b)->spanno == sn) { occ_t *o = *b; *b = o->next; free(o); return; }
 }
 
-#define FAILF(...) do { nfail++; if (nfail <= 20) { printf("FAIL "); printf(__VA_ARGS__); printf("\n"); } } while (0)
+/* flushed at once: a corrupted allocator may crash or hang right after the first failure */
+#define FAILF(...) do { nfail++; if (nfail <= 20) { printf("FAIL "); printf(__VA_ARGS__); printf("\n"); fflush(stdout); } } while (0)
 
 /* property oracle for one returned block; registers it in the occupancy map */
 static void check_new_block(int slot, unsigned char *p, size_t nsize, int reg) {
@@ -309,6 +310,8 @@ static void verify_all(void) {
 int main(int argc, char **argv) {
   char line[256];
   trace = argc > 1 && !strcmp(argv[1], "trace");
+  /* watchdog: a broken allocator can loop forever (C19_ALARM seconds, default 600) */
+  alarm(getenv("C19_ALARM") ? (unsigned)atoi(getenv("C19_ALARM")) : 600u);
   static char obuf[1 << 20];
   setvbuf(stdout, obuf, _IOFBF, sizeof obuf);
   rpmalloc_config_t cfg; memset(&cfg, 0, sizeof cfg);
